@@ -798,6 +798,61 @@ func checkC13E2E(c *Ctx) {
 			return
 		}
 	}
+	// ---- an event that is kept back while a request of its connection is under way: controller 1 subscribes, sends the
+	// header of a request and withholds the body; controller 2 changes the value; controller 1 sends the body. Both get their
+	// answers, controller 1 its event, and the value can be written again afterwards (nothing is wedged)
+	{
+		connect := func() *refClient {
+			cl, err := acc.Dial()
+			if err != nil {
+				return nil
+			}
+			vr := refPairVerify(r, cl.Post(), ident, sr.AccLTPK)
+			if vr.Shared == nil {
+				cl.Close()
+				return nil
+			}
+			cl.Upgrade(vr.Shared)
+			cl.timeout = 4 * time.Second
+			return cl
+		}
+		c1, c2 := connect(), connect()
+		desc := "tcp two verified connections: a request of the subscribed one is open (header sent, body withheld) while the other one writes the value"
+		if c1 == nil || c2 == nil {
+			c.Violate("paired reference controller cannot verify", id, desc, "verified", "failed")
+		} else {
+			sub := fmt.Sprintf(`{"characteristics":[{"aid":%d,"iid":%d,"ev":true}]}`, swID, onID)
+			c1.Do("PUT", "/characteristics", "application/hap+json", []byte(sub))
+			body := fmt.Sprintf(`{"characteristics":[{"aid":%d,"iid":%d,"ev":true}]}`, swID, onID)
+			head := fmt.Sprintf("PUT /characteristics HTTP/1.1\r\nHost: acc.local\r\nContent-Type: application/hap+json\r\nContent-Length: %d\r\n\r\n", len(body))
+			c1.conn.Write(c1.sess.Encrypt([]byte(head)))
+			time.Sleep(30 * time.Millisecond)
+			cur, _ := c2.Do("GET", fmt.Sprintf("/characteristics?id=%d.%d", swID, onID), "", nil)
+			next := cur == nil || !bytes.Contains(cur.Body, []byte(`"value":true`))
+			w := func(v bool) []byte { return []byte(fmt.Sprintf(`{"characteristics":[{"aid":%d,"iid":%d,"value":%v}]}`, swID, onID, v)) }
+			m2, err2 := c2.Do("PUT", "/characteristics", "application/hap+json", w(next))
+			c1.conn.Write(c1.sess.Encrypt([]byte(body)))
+			m1, err1 := c1.next(c1.timeout)
+			for err1 == nil && m1 != nil && m1.Event {
+				m1, err1 = c1.next(c1.timeout)
+			}
+			m3, err3 := c2.Do("PUT", "/characteristics", "application/hap+json", w(!next))
+			c.Count(desc, true, "e2e:held-event")
+			if err1 != nil || err2 != nil || err3 != nil || m1 == nil || m2 == nil || m3 == nil {
+				c.Violate("a request of a verified controller is not answered (the accessory is wedged)", id, desc,
+					"the open request, the write and a second write are all answered", fmt.Sprintf("open request: %v %v; write: %v %v; second write: %v %v", err1, m1 != nil, err2, m2 != nil, err3, m3 != nil))
+			}
+		}
+		for _, cl := range []*refClient{c1, c2} {
+			if cl != nil {
+				cl.Close()
+			}
+		}
+		if !acc.Alive() {
+			c.Violate("remote input ends the accessory process", id, desc, "accessory keeps serving", "process exited")
+			return
+		}
+	}
 	// ---- raw frames on a verified connection (the length field of a frame is not authenticated before it is used)
 	type rawCase struct {
 		desc     string
